@@ -164,6 +164,11 @@ mod u {
     pub mod observability { use super::*; pub fn log_error<T>(_e: &GitAiError, _c: Option<T>) {} pub fn spawn_background_flush() {} }
     pub fn log_performance_for_checkpoint(_n: usize, _d: std::time::Duration, _k: CheckpointKind) {}
     pub fn generate_short_hash(a: &str, b: &str) -> String { format!("{}{}", a, b) }
+    pub fn debug_log(_m: &str) {}
+    use std::time::Instant;
+    thread_local! { pub static REST: RefCell<Vec<(Option<Vec<String>>, bool)>> = Default::default(); }
+    /// stands for everything `run` does after its head; records the pathspec and the flag it is reached with
+    fn rest_of_run_with(spec: Option<Vec<String>>, flag: bool) -> Result<(usize, usize, usize), GitAiError> { REST.with(|r| r.borrow_mut().push((spec, flag))); Err(GitAiError::Generic("rest of run".into())) }
 
     include!("@ITEMS@");
 
@@ -221,14 +226,45 @@ mod u {
             },
         }
     }
+    /// the head of `run` on a REAL tree, two ways: (1) region ws_filter per reported path + region ws_decide (the
+    /// `.iter().filter_map(..).collect()` plumbing is the driver's); (2) region ws_return = the ORIGINAL statements of run from
+    /// `let mut filtered_pathspec` to `let files_start`, closure pipeline included.  `reported` None = no file list in the payload.
+    /// Expected (hand-written): kept = how many of the reported paths are inside the work tree.
+    pub fn chk_head(c: &mut Ctx, root: &Path, reported: Option<Vec<String>>, kept: usize, human: bool) {
+        c.evaluated += 1;
+        let repo = Repository { workdir: root.to_path_buf(), canonical_workdir: root.canonicalize().unwrap(), allowed: true, run_fails: false, has_name: true };
+        let shown = format!("root={} human={} reported={:?}", root.display(), human, reported);
+        let n = reported.as_ref().map(|v| v.len()).unwrap_or(0);
+        let want_out = n > 0 && kept == 0;
+        if let Some(p) = &reported {
+            match guarded(|| { let filtered: Vec<String> = p.iter().filter_map(|path| region_ws_filter(path, &repo, root.to_path_buf())).collect(); region_ws_decide(filtered, p, false, None) }) {
+                Err(e) => c.fail("region_ws_decide", "safety", shown.clone(), e, "no panic".into()),
+                Ok((present, all_out, spec)) => {
+                    if all_out != want_out { c.fail("region_ws_decide", "ensures#0", shown.clone(), format!("all_outside={}", all_out), format!("{} ({} reported, {} inside the work tree)", want_out, n, kept)); }
+                    if present != (kept > 0) || spec.as_ref().map(|v| v.len()).unwrap_or(0) != kept { c.fail("region_ws_decide", "ensures#0", shown.clone(), format!("pathspec {:?}", spec), format!("{} paths", kept)); }
+                }
+            }
+        }
+        let arr = AgentRunResult { agent_id: AgentId { tool: "t".into(), id: "i".into(), model: "m".into() }, agent_metadata: None, checkpoint_kind: if human { CheckpointKind::Human } else { CheckpointKind::AiAgent }, transcript: None,
+            repo_working_dir: None, edited_filepaths: if human { Some(vec!["decoy-in-the-other-slot.txt".into()]) } else { reported.clone() }, will_edit_filepaths: if human { reported.clone() } else { None }, dirty_files: None };
+        REST.with(|r| r.borrow_mut().clear());
+        let ret = match guarded(|| region_ws_return(Some(arr), &repo, Instant::now())) { Err(e) => { c.fail("region_ws_return", "safety", shown, e, "no panic".into()); return; } Ok(x) => x };
+        let rest = REST.with(|r| r.borrow().clone());
+        if want_out {
+            if !rest.is_empty() { c.fail("region_ws_return", "pre@opq_rest_of_run#0", shown.clone(), format!("the rest of run was reached with {:?}", rest), "files were reported and none is inside the work tree: nothing is read or written".into()); }
+            if !matches!(ret, Ok((0, 0, 0))) { c.fail("region_ws_return", "ensures#0", shown.clone(), format!("{:?}", ret), "Ok((0, 0, 0))".into()); }
+        } else if rest.len() != 1 { c.fail("region_ws_return", "ensures#0", shown.clone(), format!("{:?}", ret), "the checkpoint goes on (an empty or absent list, or some path inside)".into()); }
+        else if rest[0].0.as_ref().map(|v| v.len()).unwrap_or(0) != kept || rest[0].0.is_some() != (kept > 0) { c.fail("region_ws_return", "ensures#0", shown.clone(), format!("pathspec {:?}", rest[0].0), format!("{} paths; none = no pathspec", kept)); }
+    }
     pub fn chk_hc(c: &mut Ctx, sc: &Scn, args: &[String]) {
         c.evaluated += 1;
         SC.with(|s| *s.borrow_mut() = sc.clone());
         let shown = format!("{:?} args={:?}", sc, args);
         let out = run_hc(args);
         let calls = CALLS.with(|x| x.borrow().clone());
+        let out2 = match &out { Outcome::Returned => 0, Outcome::Exit(0) => 1, Outcome::Exit(_) => 2, Outcome::Panic(_) => 3 };
         match out {
-            Outcome::Panic(p) => { if sc.cwd.is_none() { /* recorded deviation ckptcmd-3: current_dir().unwrap() */ c.skipped_cwd += 1; } else { c.fail("handle_checkpoint", "safety", shown.clone(), format!("panic: {}", p), "no panic".into()); } return; }
+            Outcome::Panic(p) => { c.fail("handle_checkpoint", "safety", shown.clone(), format!("panic: {}", p), "no panic".into()); return; }
             Outcome::Exit(code) => if code != 0 { c.fail("handle_checkpoint", "pre@opq_exit", shown.clone(), format!("exit({})", code), "exit(0)".into()); },
             Outcome::Returned => {}
         }
@@ -243,7 +279,7 @@ mod u {
                 if p.len() == 3 && (p[0] == "H" || p[0] == "A") { Some(PresetAns::Ok { human: p[0] == "H", wd: Some(p[1].to_string()), files: if p[2] == "~" { None } else if p[2].is_empty() { Some(vec![]) } else { Some(p[2].split(',').map(|x| x.to_string()).collect()) }, other: None }) } else { None } })
         } else { sc.ans.clone() };
         let (human, wd, files) = match &eff { Some(PresetAns::Ok { human, wd, files, .. }) => (*human, wd.clone(), files.clone()), _ => { if !calls.is_empty() { c.fail("handle_checkpoint", "pre@opq_exit", shown.clone(), format!("{} checkpoint runs", calls.len()), "a preset error ends the command without a checkpoint".into()); } return; } };
-        let cwd = sc.cwd.clone().unwrap();
+        let cwd = match sc.cwd.clone() { Some(d) => d, None => { if !calls.is_empty() || !matches!(out2, 1) { c.fail("handle_checkpoint", "pre@opq_exit", shown.clone(), format!("{} runs, outcome {}", calls.len(), out2), "the current directory is gone: reported, exit(0), no checkpoint".into()); } return; } };
         let base = wd.clone().unwrap_or(cwd.clone());
         let primary = model_owner(&sc.roots, &base, None);
         let grouped: Vec<&RunCall> = if primary.is_some() { calls.iter().skip(1).collect() } else { calls.iter().collect() };
@@ -290,7 +326,7 @@ mod u {
             chk_v1(c, None);
             for s in ["", "{", "H|/w/a|f.rs", "A|/w/a|f.rs,g.rs", "A|/w/a|~", "H|/w/a|", "X|/w/a|f", "A|/w/a", "H||~", "A|rel|/abs/f"] { chk_v1(c, Some(s)); }
         }
-        if all || only == "region_ws_filter" {
+        if all || only == "region_ws_filter" || only == "region_ws_decide" || only == "region_ws_return" {
             let tmp = ::std::env::temp_dir().join(format!("ckptcmd-replay-{}", ::std::process::id()));
             let _ = ::std::fs::remove_dir_all(&tmp);
             let root = tmp.join("repo"); let out = tmp.join("outside"); let sib = tmp.join("repo2");
@@ -306,6 +342,16 @@ mod u {
                 ("link_out/x.txt".into(), None), (format!("{}/link_out/x.txt", r), None), ("/".into(), None),
             ];
             for (p, w) in &table { chk_filter(c, &root, p, *w); }
+            {
+                let outs: Vec<String> = table.iter().filter(|(_, w)| w.is_none()).map(|(p, _)| p.clone()).collect();
+                let ins: Vec<String> = table.iter().filter(|(_, w)| w.is_some()).map(|(p, _)| p.clone()).collect();
+                chk_head(c, &root, None, 0, false); chk_head(c, &root, None, 0, true); chk_head(c, &root, Some(vec![]), 0, false); chk_head(c, &root, Some(vec![]), 0, true);
+                for o in &outs { chk_head(c, &root, Some(vec![o.clone()]), 0, false); chk_head(c, &root, Some(vec![o.clone()]), 0, true); }
+                chk_head(c, &root, Some(outs.clone()), 0, false); chk_head(c, &root, Some(outs.clone()), 0, true);
+                for i in &ins { chk_head(c, &root, Some(vec![i.clone()]), 1, false); chk_head(c, &root, Some(vec![i.clone()]), 1, true); chk_head(c, &root, Some(vec![outs[0].clone(), i.clone(), outs[1].clone()]), 1, false); chk_head(c, &root, Some(vec![outs[0].clone(), i.clone(), outs[1].clone()]), 1, true); }
+                chk_head(c, &root, Some(ins.clone()), ins.len(), false); chk_head(c, &root, Some(ins.clone()), ins.len(), true);
+                chk_head(c, &root, Some([outs.clone(), ins.clone()].concat()), ins.len(), false); chk_head(c, &root, Some([outs.clone(), ins.clone()].concat()), ins.len(), true);
+            }
             let _ = ::std::fs::remove_dir_all(&tmp);
         }
         if all || only == "handle_checkpoint" || only == "region_multi_body" || only == "region_cross_body" {
